@@ -79,6 +79,44 @@ def chunked(rng, data):
     return out
 
 
+def ring_size():
+    try:
+        txt = open(os.path.join(vlib.THEORIES, 'Gen', 'Consts_kfmt.v')).read()
+        return int(re.search(r'kfmt_ringBufferSize : N := (\d+)', txt).group(1))
+    except Exception:
+        return 2048
+
+
+def aligned_chunks(rng, S):
+    """Write sizes (filler, key, tail): a key write of a size from {1,63,64,65,S-2,S-1,S,random} that ENDS on a
+    residue next to the wrap (S-2, S-1, 0, 1 mod S), before or after the first wrap, followed by short writes."""
+    c = rng.choice([1, 63, 64, 65, S - 2, S - 1, S, rng.randrange(66, S - 2), rng.randrange(64, 400), rng.randrange(64, 400)])
+    r = rng.choice([S - 2, S - 1, S - 1, 0, 1])
+    end = rng.choice([0, 1, 1, 2]) * S + r
+    while end < c:
+        end += S
+    t0 = end - c
+    fill = []
+    while t0 > 0:
+        k = min(t0, rng.choice([1, 63, 64, 65, S - 2, S - 1, S, rng.randrange(1, S), rng.randrange(1, 100), rng.randrange(1, 100)]))
+        fill.append(k); t0 -= k
+    tail = [rng.choice([1, 1, 2, 5, 12, 40, 63]) for _ in range(rng.randrange(1, 5))]
+    return fill, c, tail
+
+
+def gen_aligned_logops(rng):
+    """early log whose Writes are positioned around the wrap of the ring: bulk writes are Printf("%s", []byte)
+    (one Write), byte-wise output is Printf("%s", string)"""
+    fill, c, tail = aligned_chunks(rng, ring_size())
+    ops = []
+    for k in fill:
+        ops.append((rng.choice([0, 0, 1]), rand_text(rng, k)))
+    ops.append((0, rand_text(rng, c)))
+    for k in tail:
+        ops.append((rng.choice([0, 1, 1]), rand_text(rng, k)))
+    return ops
+
+
 def gen_logops(rng, size):
     ops = []
     data = rand_text(rng, size)
@@ -102,7 +140,7 @@ def enc_logops(ops):
 
 
 def gen_driver(rng, i):
-    kind = rng.choice([0, 0, 1, 1, 2])
+    kind = rng.choice([0, 3, 4, 5, 5, 1, 1, 1, 2])
     name = list(rng.choice([b'vga', b'vesa_fb', b'vt', b'tty0', b'acpi', b'x', b'', b'long driver name']))
     log = []
     for _ in range(rng.choice([0, 0, 1, 2, 3])):
@@ -130,14 +168,14 @@ class C16(flow.Spec):
     test = 'TestVerifC16$'
     rule = ('scenarios = log output before (sizes 0,1,2046,2047,2048,5000 or random, random chunking, []byte / string / integer Printf), '
             '0-8 mock drivers (any detection orders incl. ties and the four named constants, any registration permutation, probe failing '
-            'with p=0.15, init failing with p=0.25, consoles / terminals / others, 0-3 init log chunks with newlines), log output after; '
-            'plus ring-buffer-only histories of Write/Read/drain with wrap-around. non-trivial = at least one driver initialised; '
+            'with p=0.15, init failing with p=0.25, consoles (plain / FontSetter / LogoSetter / both) / terminals / others, 0-3 init log chunks with newlines), a multiboot command line with consoleFont = none / existing / unknown and consoleLogo = none / off / on, log output after; '
+            'early logs / ring histories whose Writes (sizes 1,63,64,65,S-2,S-1,S,random) END on the residues S-2,S-1,0,1 before and after the first wrap, followed by short writes before the hand-over; plus random ring-buffer-only histories of Write/Read/drain with wrap-around. non-trivial = at least one driver initialised; '
             'distinct = distinct scenarios')
     assumptions = ['sort.Sort leaves a sorted permutation of the registered drivers: hypothesis of the theorems, checked by the monitor on every observed run '
                    '(probe order non-decreasing, every driver once); the order among ties is taken from a pre-pass through the real sort.Sort',
                    'io.Copy is modelled as: Read into a 32 KiB buffer and Write what was read, until Read returns io.EOF; writers accept every Write completely',
-                   'drivers are mock objects whose Probe/DriverInit behaviour is data; consoles without font/logo support (onConsoleInit\'s font/logo selection is not modelled)',
-                   'the add-only shim device.VerifSetDrivers (build tag verif, injected by overlay) resets device.registeredDrivers']
+                   'drivers are mock objects whose Probe/DriverInit behaviour is data; for consoles with font/logo support the model records that SetLogo/SetFont is called (which font/logo is chosen is not modelled)',
+                   'add-only shims under build tag verif, injected by overlay: device.VerifSetDrivers (resets device.registeredDrivers), kfmt.VerifResetEarlyBuffer (boot state of the early buffer), multiboot.VerifResetCmdLine (forget the memoised command line)']
     partial = ['the second configuration of DESIGN.md section 5 (the real tty.VT attached to a reference console, cells compared, composition '
                'with C17) is not exercised: the terminal of the harness is a recording mock, so "cells shown by a reference console" is '
                'observed as the byte stream handed to the terminal']
@@ -150,7 +188,9 @@ class C16(flow.Spec):
             self.go_extra_env = {'VERIF_C16_CAPACITY': str(int(m.group(1)) - 1)}
         except Exception:
             self.go_extra_env = None
-        return {os.path.join(vlib.REPO, 'kernel/device/zz_verif_c16_shim.go'): os.path.join(HD, 'zz_verif_c16_shim.go')}
+        return {os.path.join(vlib.REPO, 'kernel/device/zz_verif_c16_shim.go'): os.path.join(HD, 'zz_verif_c16_shim.go'),
+                os.path.join(vlib.REPO, 'kernel/kfmt/zz_verif_c16_shim.go'): os.path.join(HK, 'zz_verif_c16_shim.go'),
+                os.path.join(vlib.REPO, 'kernel/multiboot/zz_verif_c16_shim.go'): os.path.join(vlib.ROOT, 'harness/kernel/multiboot/zz_verif_c16_shim.go')}
 
     # ---------------------------------------------------------------- sort pre-pass
     def sorted_orders(self, order_lists):
@@ -170,8 +210,8 @@ class C16(flow.Spec):
                 res.append(sorted(range(len(ol)), key=lambda k: ol[k]))    # fallback: stable sort
         return res
 
-    def build(self, pre, drivers, perm, post):
-        nums = enc_logops(pre) + [len(drivers)]
+    def build(self, pre, drivers, perm, post, opts=(0, 0)):
+        nums = [opts[0], opts[1]] + enc_logops(pre) + [len(drivers)]
         for d in drivers:
             nums += enc_driver(d)
         nums += [len(perm)] + list(perm)
@@ -183,21 +223,23 @@ class C16(flow.Spec):
         raw = []
         for _ in range(n):
             size = rng.choice(LOG_SIZES + LOG_SIZES + [rng.randrange(0, 3000)])
-            pre = gen_logops(rng, size)
+            pre = gen_aligned_logops(rng) if rng.random() < 0.4 else gen_logops(rng, size)
             nd = rng.choice([0, 1, 2, 2, 3, 3, 4, 5, 6, 8])
             drivers = [gen_driver(rng, i) for i in range(nd)]
             r = rng.random()
             if nd >= 2 and r < 0.5:
                 # make sure a console and a terminal come up, in either order
                 a, b = rng.sample(range(nd), 2)
-                drivers[a].update(kind=0, probe=True, init=True)
+                drivers[a].update(kind=rng.choice([0, 3, 4, 5, 5]), probe=True, init=True)
                 drivers[b].update(kind=1, probe=True, init=True)
             post = gen_logops(rng, rng.choice([0, 1, 10, 100, 2500]))
-            raw.append((pre, drivers, post))
-        perms = self.sorted_orders([[d['order'] for d in ds] for (_, ds, _) in raw])
+            # boot command line: consoleFont = none / an existing font / unknown ; consoleLogo = none / off / other
+            opts = (rng.choice([0, 0, 1, 2, 3, 4]), rng.choice([0, 0, 1, 2]))
+            raw.append((pre, drivers, post, opts))
+        perms = self.sorted_orders([[d['order'] for d in ds] for (_, ds, _, _) in raw])
         out = []
-        for (pre, drivers, post), perm in zip(raw, perms):
-            out.append((self.build(pre, drivers, perm, post), 'scenario'))
+        for (pre, drivers, post, opts), perm in zip(raw, perms):
+            out.append((self.build(pre, drivers, perm, post, opts), 'scenario'))
         return out
 
     # ---------------------------------------------------------------- decoding (explain / shrink)
@@ -216,16 +258,17 @@ class C16(flow.Spec):
                     k = nx()
                     ops.append((k, lst()) if k in (0, 1) else (2, nx()))
                 return ops
+            opts = (nx(), nx())
             pre = logops()
             drivers = []
             for _ in range(nx()):
                 o = nx(); o = o - 256 if o & 0x80 else o
-                d = dict(order=o, probe=nx() != 0, kind=min(nx(), 2), name=lst(), ver=[nx(), nx(), nx()], init=nx() != 0, msg=lst())
+                d = dict(order=o, probe=nx() != 0, kind=min(nx(), 5), name=lst(), ver=[nx(), nx(), nx()], init=nx() != 0, msg=lst())
                 d['log'] = [lst() for _ in range(nx())]
                 drivers.append(d)
             perm = lst()
             post = logops()
-            return pre, drivers, perm, post
+            return pre, drivers, perm, post, opts
         except StopIteration:
             return None
 
@@ -233,14 +276,16 @@ class C16(flow.Spec):
         dec = self.decode(nums)
         if not dec:
             return 'undecodable'
-        pre, drivers, perm, post = dec
+        pre, drivers, perm, post, opts = dec
         size = lambda ops: sum(len(o[1]) if o[0] != 2 else 9 for o in ops)
         ds = []
         for i, d in enumerate(drivers):
             ds.append('#%d{order %d, %s, %s%s, log %d bytes}' % (
-                i, d['order'], ['console', 'tty', 'other'][d['kind']], 'no hardware' if not d['probe'] else ('init ok' if d['init'] else 'init fails %r' % bytes(d['msg'])),
+                i, d['order'], ['console', 'tty', 'other', 'console+font', 'console+logo', 'console+font+logo'][d['kind']], 'no hardware' if not d['probe'] else ('init ok' if d['init'] else 'init fails %r' % bytes(d['msg'])),
                 '', sum(len(c) for c in d['log'])))
-        return 'log %d bytes in %d Printf calls; register %s; probe order %s; then log %d bytes' % (size(pre), len(pre), ' '.join(ds), perm, size(post))
+        cl = ' '.join(x for x in (['', 'consoleFont=terminus8x16', 'consoleFont=terminus10x18', 'consoleFont=terminus14x28', 'consoleFont=no-such-font'][min(opts[0], 4)],
+                                  ['', 'consoleLogo=off', 'consoleLogo=on'][min(opts[1], 2)]) if x)
+        return 'cmdline %r; log %d bytes in %d Printf calls; register %s; probe order %s; then log %d bytes' % (cl, size(pre), len(pre), ' '.join(ds), perm, size(post))
 
     def nontrivial(self, nums, obs):
         dec = self.decode(nums)
@@ -250,9 +295,9 @@ class C16(flow.Spec):
         dec = self.decode(nums)
         if not dec:
             return note
-        pre, drivers, perm, post = dec
+        pre, drivers, perm, post, opts = dec
         ok = [d for d in drivers if d['probe'] and d['init']]
-        linked = any(d['kind'] == 0 for d in ok) and any(d['kind'] == 1 for d in ok)
+        linked = any(d['kind'] in (0, 3, 4, 5) for d in ok) and any(d['kind'] == 1 for d in ok)
         size = sum(len(o[1]) if o[0] != 2 else 9 for o in pre)
         return '%s,early%s' % ('linked' if linked else 'no-pair', '>cap' if size > 2047 else '<=cap')
 
@@ -260,27 +305,53 @@ class C16(flow.Spec):
         dec = self.decode(nums)
         if not dec:
             return
-        pre, drivers, perm, post = dec
+        pre, drivers, perm, post, opts = dec
         # drop a driver (stable order of the rest is kept: remove it from the permutation and renumber)
         for j in range(len(drivers)):
             ds = drivers[:j] + drivers[j + 1:]
             pm = [p - 1 if p > j else p for p in perm if p != j]
-            yield self.build(pre, ds, pm, post)
+            yield self.build(pre, ds, pm, post, opts)
         if post:
-            yield self.build(pre, drivers, perm, [])
-        for j in range(len(pre)):
-            yield self.build(pre[:j] + pre[j + 1:], drivers, perm, post)
+            yield self.build(pre, drivers, perm, [], opts)
+        if opts != (0, 0):
+            yield self.build(pre, drivers, perm, post, (0, 0))
+            yield self.build(pre, drivers, perm, post, (opts[0], 0))
+            yield self.build(pre, drivers, perm, post, (0, opts[1]))
         for j, d in enumerate(drivers):
             if d['log']:
                 d2 = dict(d); d2['log'] = []
-                yield self.build(pre, drivers[:j] + [d2] + drivers[j + 1:], perm, post)
+                yield self.build(pre, drivers[:j] + [d2] + drivers[j + 1:], perm, post, opts)
+            if d['kind'] >= 3:
+                d2 = dict(d); d2['kind'] = 0
+                yield self.build(pre, drivers[:j] + [d2] + drivers[j + 1:], perm, post, opts)
+        # early log: merge neighbours into one byte-wise Printf (keeps every write position), then drop / simplify
+        for j in range(len(pre) - 1):
+            if pre[j][0] != 2 and pre[j + 1][0] != 2:
+                yield self.build(pre[:j] + [(1, list(pre[j][1]) + list(pre[j + 1][1]))] + pre[j + 2:], drivers, perm, post, opts)
+        for j in range(len(pre)):
+            yield self.build(pre[:j] + pre[j + 1:], drivers, perm, post, opts)
+        for j in range(len(pre)):
+            if pre[j][0] != 2 and any(c != 0x61 for c in pre[j][1]):
+                yield self.build(pre[:j] + [(pre[j][0], [0x61] * len(pre[j][1]))] + pre[j + 1:], drivers, perm, post, opts)
 
     # ---------------------------------------------------------------- ring-buffer-only agreement
     def ring_cases(self, rng, tier):
         n = {'quick': 300, 'thorough': 6000, 'search': 600}[tier]
         out = []
-        for _ in range(n):
+        S = ring_size()
+        for it in range(n):
             nums = []
+            if it % 2 == 0:
+                # writes positioned around the wrap, short writes, then drain (sometimes a second round)
+                for rnd in range(rng.choice([1, 1, 2])):
+                    fill, c, tail = aligned_chunks(rng, S)
+                    for k in fill + [c] + tail:
+                        nums += [0, k] + [rng.randrange(256) for _ in range(k)]
+                        if rng.random() < 0.03:
+                            nums += [1, rng.choice([0, 1, 10, 100])]
+                    nums += [2]
+                out.append(nums)
+                continue
             for _ in range(rng.randrange(1, 12)):
                 r = rng.random()
                 if r < 0.55:
